@@ -1335,7 +1335,12 @@ struct array : static_array<T, D, Alloc> {
 	}
 
 	auto operator=(array const& other) -> array& {
-		if(array::extensions() == other.extensions()) {
+		// with a propagating allocator that differs from the current one the old block must go back to the old allocator: no reuse
+		bool const reusable = [&] {
+			if constexpr(multi::allocator_traits<typename array::allocator_type>::propagate_on_container_copy_assignment::value) { return this->alloc() == other.alloc(); }
+			else { return true; }
+		}();
+		if(reusable && array::extensions() == other.extensions()) {
 			if(this == &other) {
 				return *this;
 			}  // required by cert-oop54-cpp
